@@ -41,6 +41,9 @@ class Builder:
         if 'table' in spec:
             self.world.tables[fname] = {tuple(_to_py(k)): _to_py(v) for k, v in spec['table']}
         f = self.world.fn(fname, impure=bool(spec.get('impure')), params=list(spec.get('args', [])))
+        if spec.get('silent'):
+            from connectome.interface.nodes import Silent
+            f.__annotations__ = {p: Silent for p in spec['silent']}
         return f
 
     def decorate(self, f, spec):
